@@ -84,6 +84,7 @@ structure LockFacts (cfg : Cfg) (s : State) (k : Kind) (pid : Id) (t : Txn) (s' 
   state    : s' = putSP s k pid
                { sp with pools := kvSet sp.pools t.client (lockedDP (kvGet sp.pools t.client) t.value t.now) }
   transfer : trs = [{ src := t.client, dst := k.sc, amount := t.value }]
+  active   : isDeleted (kvGet sp.pools t.client) = false
 
 theorem lock_inv {cfg : Cfg} {s s' : State} {k : Kind} {pid : Id} {t : Txn} {trs : List Ledger.Transfer}
     (h : lock cfg s k pid t = .ok (s', trs)) : ∃ sp, LockFacts cfg s k pid t s' trs sp := by
@@ -120,6 +121,9 @@ theorem lock_inv {cfg : Cfg} {s s' : State} {k : Kind} {pid : Id} {t : Txn} {trs
               · split at h
                 · cases h
                 · rename_i hbal
+                  split at h
+                  · cases h
+                  rename_i hdel
                   cases hst : stakeOf (orderedPools s.order (kvSet sp.pools t.client
                       (lockedDP (kvGet sp.pools t.client) t.value t.now))) 0 with
                   | error e => rw [hst] at h; cases h
@@ -133,7 +137,8 @@ theorem lock_inv {cfg : Cfg} {s s' : State} {k : Kind} {pid : Id} {t : Txn} {trs
                       simp only at h
                       injection h with h
                       injection h with h1 h2
-                      refine ⟨hl, Nat.pos_of_ne_zero h0, Nat.le_of_not_lt hmin, ?_, ?_, Nat.le_of_not_lt hbal, h1.symm, h2.symm⟩
+                      refine ⟨hl, Nat.pos_of_ne_zero h0, Nat.le_of_not_lt hmin, ?_, ?_, Nat.le_of_not_lt hbal, h1.symm, h2.symm,
+                        by simpa using hdel⟩
                       · rw [← haf]; exact Nat.le_of_not_lt hmax
                       · by_cases hc : (kvGet sp.pools t.client).isSome = true
                         · exact Or.inr hc
@@ -233,6 +238,15 @@ theorem mintRewards_none {sp : SP} {k : Kind} {client : Id} (hd : kvGet sp.pools
 
 /-! ## inversion of `unlock` and `collect` -/
 
+/-- `Empty` + `DeletePool` on a pool that exists: the pool is gone, whatever its status was; nothing else moves. -/
+theorem deletePool_emptyPool (sp : SP) (c : Id) (d : DP) (hd : kvGet sp.pools c = some d) :
+    deletePool (emptyPool sp c) c =
+      { sp with pools := kvDel (kvSet sp.pools c { d with balance := 0, deleted := true }) c } := by
+  unfold emptyPool
+  simp only [hd]
+  unfold deletePool
+  simp only [kvGet_kvSet_eq, ↓reduceIte]
+
 structure UnlockFacts (cfg : Cfg) (s : State) (k : Kind) (pid : Id) (t : Txn) (wall : Nat) (s' : State)
     (trs : List Ledger.Transfer) (sp : SP) (dp : DP) : Prop where
   load    : loadSP s k pid = .ok sp
@@ -273,7 +287,10 @@ theorem unlock_inv {cfg : Cfg} {s s' : State} {k : Kind} {pid : Id} {t : Txn} {w
             simp only at h
             split at h
             · cases h
-            · cases hst : stakeOf (orderedPools s.order (kvDel sp1.pools t.client)) 0 with
+            · rw [deletePool_emptyPool sp1 t.client _ m1] at h
+              simp only at h
+              cases hst : stakeOf (orderedPools s.order (kvDel (kvSet sp1.pools t.client
+                  { balance := 0, reward := 0, stakedAt := dp.stakedAt, deleted := true }) t.client)) 0 with
               | error e => rw [hst] at h; cases h
               | ok tot =>
                 rw [hst] at h
@@ -292,8 +309,8 @@ theorem unlock_inv {cfg : Cfg} {s s' : State} {k : Kind} {pid : Id} {t : Txn} {w
                       have hp : 0 < dp.stakedAt := Nat.pos_of_ne_zero hz
                       exact Classical.byContradiction (fun hn => htime ⟨hp, hn⟩)
                   · intro j hj
-                    show kvGet (kvDel sp1.pools t.client) j = _
-                    rw [kvGet_kvDel_ne _ _ _ hj, m2 j hj]
+                    show kvGet (kvDel (kvSet sp1.pools t.client _) t.client) j = _
+                    rw [kvGet_kvDel_ne _ _ _ hj, kvGet_kvSet_ne _ _ _ _ hj, m2 j hj]
                   · rw [← h2]
                     exact paysOnly_append m5 (paysOnly_single _ _ _)
 
